@@ -112,7 +112,11 @@ def rule_fft(rep, sm):
         FI, FO = alg.sym("fft_size_in"), alg.sym("fft_size_out")
         # alias: chunk_size_out == fft_size_out when initialised from the same local
         if t == "FftFixedInOut":
-            if nbit(inits.get("chunk_size_out")) == nbit(cst.locals.get("fft_size_out")):
+            fr = None
+            for x in walk(inits.get("resampler") or {}):
+                if x.get("k") == "call" and is_path(x["f"]) and x["f"]["p"].endswith("new") and len(x["args"]) == 2:
+                    fr = x["args"]
+            if fr is not None and nbit(inits.get("chunk_size_out")) == nbit(fr[1]):
                 D = D.subs(alg.sym("chunk_size_out"), FO)
         want = centre.subs(NP, FI) * FO / FI
         res = sp.simplify(D - want)
